@@ -101,6 +101,8 @@ def replay_finite(wit):
         dn = np.zeros((2, 2, 3))
         live = 0 if zeta == 1 else 1
         dn[live] = np.array([[0.1, -0.2, 0.3], [0.5, 0.1, -0.4]])
+        if wit.get("empty_channel_gradient"):
+            dn[1 - live] = np.array([[1e-3, 2e-3, -1e-3], [-2e-3, 1e-3, 3e-3]])
     with np.errstate(all="ignore"):
         exc, vxc, vs, _ = get_xc([f, "mock_xc"], n_spin, 2, dn_spin=dn)
     bad = {}
